@@ -122,7 +122,7 @@ impl<'a> IrEmitter<'a> {
                         };
                         quote! { #lit_tok }
                     }
-                    IrExprKind::Float(f) => {
+                    IrExprKind::Float(f) if f.is_finite() => {
                         let lit_tok = proc_macro2::Literal::f64_unsuffixed(*f);
                         quote! { #lit_tok }
                     }
